@@ -273,7 +273,7 @@ def _run_check(check, tier, seed, out, t0):
             raise HarnessError('conformance step failed:\n' + traceback.format_exc())
         for case, v in extra.pop('viol', []):
             stats['viol_count'] += 1
-            stats['viol'].append((case, v))
+            stats['viol'].append((case, dict(v, conformance=True)))
 
     # ---- violations: signatures, known findings, replay files
     known = [k for k in load_known() if k.get('property') == check.id]
@@ -295,7 +295,7 @@ def _run_check(check, tier, seed, out, t0):
         for sig, lst in sorted(reported.items()):
             lst.sort(key=lambda cv: len(json.dumps(cv[0])))
             case, v = lst[0]
-            rec = {'property': check.id, 'clause': v['clause'], 'signature': sig,
+            rec = {'property': check.id, 'clause': v['clause'], 'signature': sig, 'conformance': bool(v.get('conformance')),
                    'case': case, 'detail': v.get('detail'), 'tier': tier,
                    'cases_with_this_signature': len(lst)}
             name = '%s-%016x.json' % (check.id, h64([sig, case]))
